@@ -198,6 +198,7 @@ func genIter(t *rapid.T, p *Profile, nkeys int, inTxnRW bool) *IterSpec {
 	switch {
 	case kind <= 1:
 		it.Prefix = rapid.IntRange(0, nkeys-1).Draw(t, "it_prefix")
+		it.PrefixLen = rapid.SampledFrom([]int{0, 0, 1, 2}).Draw(t, "it_prefix_len") // short prefixes span several keys (and tables)
 		// seek inside the prefix: either rewind or the prefix key itself with a suffix
 		if rapid.Bool().Draw(t, "it_seek_in_prefix") {
 			it.Seek = it.Prefix
@@ -214,8 +215,9 @@ func genIter(t *rapid.T, p *Profile, nkeys int, inTxnRW bool) *IterSpec {
 	if it.KeyIter < 0 {
 		it.AllV = rapid.IntRange(0, 3).Draw(t, "it_allv") == 0
 	}
-	if rapid.IntRange(0, 4).Draw(t, "it_since_on") == 0 {
-		it.Since = rapid.IntRange(1, 6).Draw(t, "it_since")
+	if rapid.IntRange(0, 4).Draw(t, "it_since_on") == 0 || (it.Prefix >= 0 && rapid.Bool().Draw(t, "it_since_with_prefix")) {
+		// (SinceTs together with a Prefix takes its own path through the table picker)
+		it.Since = rapid.SampledFrom([]int{1, 2, 3, 5, 20, 60, 150, 400}).Draw(t, "it_since")
 	}
 	it.Prefetch = rapid.Bool().Draw(t, "it_prefetch")
 	it.PSize = rapid.SampledFrom([]int{0, 1, 2, 3, 100}).Draw(t, "it_psize")
